@@ -343,12 +343,7 @@ def py_str(t):
 
 # ---------------------------------------------------------------- models -> Python
 
-class Undefined:
-    def __repr__(self):
-        return "UNDEFINED"
-
-
-UNDEFINED_PY = Undefined()
+from .pyvalues import UNDEFINED_PY, Undefined  # noqa: E402
 
 
 def _seq_to_list(m, seq):
